@@ -180,7 +180,7 @@ class Chipset(object):
                 self.log.error("input/output error while waiting for ack")
                 raise IOError(errno.EIO, os.strerror(errno.EIO))
 
-            if not frame.startswith(self.SOF):
+            if frame is None or not frame.startswith(self.SOF):
                 self.log.error("invalid frame start sequence")
                 raise IOError(errno.EIO, os.strerror(errno.EIO))
 
@@ -200,6 +200,11 @@ class Chipset(object):
                     self.write_frame(self.ACK)  # cancel command
                     time.sleep(0.001)
                 raise error
+
+        if frame is None or len(frame) < 8:
+            # the shortest response (an error frame) has 8 bytes
+            self.log.error("frame too short or no frame")
+            raise IOError(errno.EIO, os.strerror(errno.EIO))
 
         if frame.startswith(self.SOF + b'\xFF\xFF'):
             # extended frame
